@@ -127,3 +127,483 @@ def replay(pid, path):
     finally:
         ctx.cleanup()
     return 0
+
+
+# ----------------------------------------------------------------------------- Vault family helpers
+def norm_proj(proj):
+    out = []
+    for s in proj:
+        out.append({"name": s["name"], "active": s["active"], "latest": s["latest"],
+                    "vers": sorted(s["vers"], key=lambda v: v["v"])})
+    return sorted(out, key=lambda s: s["name"])
+
+
+def build_graph(run, path):
+    """Turn TLC's EDGE lines into graph.json (states numbered by canonical projection)."""
+    ids, states, edges = {}, [], []
+
+    def sid(proj, audit):
+        p = norm_proj(proj)
+        k = json.dumps([p, audit], sort_keys=True)
+        if k not in ids:
+            ids[k] = len(states)
+            states.append({"proj": p, "audit": audit})
+        return ids[k]
+    init = sid([], True)
+    n = 0
+    for e in run.tagged("EDGE"):
+        edges.append({"f": sid(e["from"], e["fa"]), "t": sid(e["to"], e["ta"]), "op": e["op"]})
+        n += 1
+    callers = None
+    for c in run.tagged("CALLERS"):
+        callers = c
+    if callers is None or n == 0:
+        raise ToolTrouble("TLC emitted no edges/callers:\n" + run.tail(20))
+    if n + 1 < run.generated - 1:
+        raise ToolTrouble("TLC generated %d transitions but %d EDGE lines were parsed" % (run.generated, n))
+    json.dump({"states": states, "init": init, "edges": edges, "callers": callers}, open(path, "w"))
+    return len(states), len(edges)
+
+
+def vault_cfg(names, vals, maxver, mode="su", faults=("none",), reopen=True, emit=True):
+    q = lambda xs: "{" + ", ".join('"%s"' % x for x in xs) + "}"
+    return """CONSTANTS
+  NameSet = %s
+  Vals = %s
+  MaxVer = %d
+  Nil = Nil
+  CallerMode = "%s"
+  Faults = %s
+  WithReopen = %s
+  EmitEdges = %s
+INIT Init
+NEXT Next
+VIEW View
+INVARIANTS TypeOK Durable
+PROPERTY StepOK
+ACTION_CONSTRAINT Emit
+CHECK_DEADLOCK FALSE
+""" % (q(names), q(vals), maxver, mode, q(faults), "TRUE" if reopen else "FALSE", "TRUE" if emit else "FALSE")
+
+
+def vault_graph(ctx, name, cfg, workers=4, timeout=3000):
+    run = ctx.tlc("VaultMC", cfg, workers=workers, name=name, timeout=timeout, heap="8g")
+    ctx.tlc_must_pass(run, "Vault invariants and step properties on config " + name)
+    wd = os.path.join(ctx.scratch, "graph-" + name)
+    os.makedirs(wd, exist_ok=True)
+    ns, ne = build_graph(run, os.path.join(wd, "graph.json"))
+    log("graph %s: %d states, %d edges" % (name, ns, ne))
+    return wd, run, ns, ne
+
+
+def vault_walk(ctx, wd, name, shards=1, env=None, race=False):
+    """Replay graph.json in `shards` parallel driver processes; returns merged counters + samples."""
+    base_env = dict(env or {})
+
+    def one(s):
+        e = dict(base_env)
+        e.update({"VERIF_SHARD": s, "VERIF_NSHARDS": shards, "VERIF_NAME": "%s-%d" % (name, s)})
+        sub = os.path.join(wd, "shard-%s-%d" % (name, s))
+        os.makedirs(sub, exist_ok=True)
+        if not os.path.exists(os.path.join(sub, "graph.json")):
+            os.symlink(os.path.join(wd, "graph.json"), os.path.join(sub, "graph.json"))
+        results, _, _ = ctx.godrive("vault", "^TestReplayGraph$", env=e, workdir=sub, name="%s-%d" % (name, s), race=race, timeout=3400)
+        return ctx.take(results, "%s-%d" % (name, s))
+    ctx.gobuild("vault", race)
+    tot, samples, notes = {}, [], []
+    visited = set()
+    for r in pmap(one, range(shards), par=min(shards, NCPU)):
+        visited.update((r.get("extra") or {}).get("visited") or [])
+        for k, v in r["counters"].items():
+            tot[k] = tot.get(k, 0) + v
+        samples += (r.get("samples") or [])[:2]
+        notes += r.get("notes") or []
+    tot["states_visited"] = len(visited)
+    for n in notes[:10]:
+        ctx.note(n)
+    if tot.get("target_edges_left", 0) and not ctx.violations:
+        raise ToolTrouble("%s: %d target edges could not be reached on the real system" % (name, tot["target_edges_left"]))
+    return tot, samples
+
+
+# ----------------------------------------------------------------------------- C02
+@check("C02")
+def c02(ctx):
+    th = ctx.thorough
+    cfg = vault_cfg(["A", "B"], ["x", "y", "E"] if th else ["x", "E"], 3)
+    wd, run, ns, ne = vault_graph(ctx, "c02", cfg, workers=8 if th else 4)
+    tot, samples = vault_walk(ctx, wd, "c02", shards=16 if th else 4, env={"VERIF_PROBE_EVERY": 1 if th else 4})
+    # a deeper single-name instance (more versions)
+    cfg2 = vault_cfg(["A"], ["x", "y", "E"] if th else ["x", "E"], 5 if th else 4)
+    wd2, run2, ns2, ne2 = vault_graph(ctx, "c02deep", cfg2, workers=4)
+    tot2, samples2 = vault_walk(ctx, wd2, "c02deep", shards=4 if th else 2, env={"VERIF_PROBE_EVERY": 1})
+    cov = {"states": ns + ns2, "transitions": tot.get("targets_covered", 0) + tot2.get("targets_covered", 0),
+           "traces_validated_against_impl": 0,
+           "samples": samples[:3] + samples2[:2],
+           "model_transitions": ne + ne2, "edges_executed_on_real_code": tot.get("edges_executed", 0) + tot2.get("edges_executed", 0),
+           "states_reached_on_real_code": tot.get("states_visited", 0) + tot2.get("states_visited", 0),
+           "counter_probes": tot.get("probes", 0) + tot2.get("probes", 0), "exhaustive": True,
+           "explanation": "TLC enumerated the complete labelled transition graph of Vault (superuser; every operation with every argument incl. "
+                          "version 0 and MaxVer+1, reopen from every state) for the listed constants; every edge was executed on the real db.DB "
+                          "from a real state equal to its pre-state; reply, audit record, save flag, KEK use and the full projected state "
+                          "(incl. next-version counters probed on a copy of the file) compared after every call."}
+    return "model_checking", cov, ["model constants: Names {A,B}, Vals {x,(y),E}, MaxVer 3; single name MaxVer 4/5",
+                                   "the superuser API (list/info/get-version/get) is the observation of the real state"]
+
+
+def split_traces(path, parts):
+    """Split a multi-history trace (histories start with a 'reset' line) into `parts` lists of histories."""
+    hist, cur = [], []
+    for line in open(path):
+        line = line.rstrip("\n")
+        if not line:
+            continue
+        if line.startswith('{"ev":"reset"') and cur:
+            hist.append(cur)
+            cur = []
+        cur.append(line)
+    if cur:
+        hist.append(cur)
+    buckets = [[] for _ in range(max(1, min(parts, len(hist))))]
+    for i, h in enumerate(hist):
+        buckets[i % len(buckets)].append(h)
+    return buckets
+
+
+def validate_histories(ctx, module, cfg, trace_path, parts, extra_files=None, what="history", deque=False, timeout=900,
+                       describe=None, workers=1):
+    """Validate many recorded histories with TLC. A rejected history is reported (with the longest accepted
+    prefix and the first line the specification cannot follow), removed, and the rest is validated again."""
+    buckets = split_traces(trace_path, parts)
+    stats = {"histories": 0, "accepted": 0, "events": 0, "states": 0, "rejected": 0}
+
+    def one(bi):
+        hs = buckets[bi]
+        out = {"accepted": 0, "events": 0, "states": 0, "rejected": []}
+        rounds = 0
+        while hs and rounds < 6:
+            rounds += 1
+            lines = [l for h in hs for l in h]
+            data = ("\n".join(lines) + "\n").encode()
+            files = {"trace.ndjson": data}
+            files.update(extra_files or {})
+            run = ctx.tlc(module, cfg, files=files, workers=workers, name="b%d-r%d" % (bi, rounds), timeout=timeout, deque=deque)
+            out["states"] += run.distinct
+            hw = None
+            for ln in open(run.out, errors="replace"):
+                if ln.startswith('<<"HW", '):
+                    hw = int(ln.split(",")[1].strip(" >\n"))
+            if run.code == 0:
+                out["accepted"] += len(hs)
+                out["events"] += len(lines)
+                break
+            if hw is None or any(("Invariant" in e or "property" in e.lower()) for e in run.errors):
+                # an invariant of the specification failed on a state reached by the trace
+                lv = run.var_in_error_state("l")
+                if lv and lv.isdigit():
+                    hw = int(lv) - 1 if int(lv) > 1 else 1
+                else:
+                    raise ToolTrouble("TLC failed on %s without a usable position:\n%s" % (module, run.tail(40)))
+                why = "an invariant/step property of the specification is violated after this event: " + (run.error or "")
+            else:
+                why = "the specification has no behaviour that continues with this event"
+            if hw < 1 or hw > len(lines):
+                raise ToolTrouble("TLC rejected the trace but reported position %s of %d:\n%s" % (hw, len(lines), run.tail(30)))
+            # locate the history containing line hw
+            pos, idx = 0, None
+            for i, h in enumerate(hs):
+                if pos + len(h) >= hw:
+                    idx = i
+                    break
+                pos += len(h)
+            h = hs[idx]
+            k = hw - pos  # 1-based index inside the history
+            out["accepted"] += idx
+            out["events"] += pos
+            out["rejected"].append({"history": h[:k], "line": json.loads(h[k - 1]), "why": why,
+                                    "state": run.trace_state[-1500:] if run.trace_state else ""})
+            hs = hs[idx + 1:]
+        return out
+    for o in pmap(one, range(len(buckets)), par=NCPU):
+        stats["accepted"] += o["accepted"]
+        stats["events"] += o["events"]
+        stats["states"] += o["states"]
+        for rj in o["rejected"]:
+            stats["rejected"] += 1
+            ev = rj["line"]
+            desc = describe(ev) if describe else json.dumps(ev)[:300]
+            ctx.violation("%s rejected at %s" % (what, desc),
+                          "TLC rejects a recorded %s after %d accepted event(s): %s. First unmatched event: %s" % (
+                              what, len(rj["history"]) - 1, rj["why"], json.dumps(ev)[:900]),
+                          {"kind": "trace", "history": [json.loads(x) for x in rj["history"]]})
+    stats["histories"] = sum(len(b) for b in buckets)
+    return stats
+
+
+def describe_vault_event(ev):
+    if ev.get("ev") != "op":
+        return ev.get("ev", "?")
+    return "%s(%s,%r,ver=%s,val=%s)!%s via %s -> %s" % (ev["op"], ev["who"], ev["name"], ev["ver"], ev["val"], ev["fault"],
+                                                        ev.get("via"), ev["reply"]["class"])
+
+
+def vault_random(ctx, mode, traces, events, nofaults=False, parts=8):
+    env = {"VERIF_TRACES": traces, "VERIF_EVENTS": events, "VERIF_MODE": mode}
+    if nofaults:
+        env["VERIF_NOFAULTS"] = "1"
+    results, wd, _ = ctx.godrive("vault", "^TestRandomHistories$", env=env, name="random-" + mode)
+    r = ctx.take(results, "vault-random")
+    st = validate_histories(ctx, "VaultTrace", "VaultTrace.cfg", os.path.join(wd, "trace.ndjson"), parts,
+                            extra_files={"dict.ndjson": os.path.join(wd, "dict.ndjson")}, what="history (%s)" % mode,
+                            describe=describe_vault_event)
+    return r, st
+
+
+def merge_tot(*tots):
+    out = {}
+    for t in tots:
+        for k, v in t.items():
+            out[k] = out.get(k, 0) + v
+    return out
+
+
+# ----------------------------------------------------------------------------- C01
+@check("C01")
+def c01(ctx):
+    th = ctx.thorough
+    # (1) every caller of the rule-set family x every operation x every name class x every state
+    small = vault_cfg(["A", "_internal/X", ""], ["x", "E"], 2, mode="acl", reopen=False)
+    wd, run, ns, ne = vault_graph(ctx, "c01small", small, workers=8)
+    t1, s1 = vault_walk(ctx, wd, "c01small-db", shards=4, env={"VERIF_PROBE_EVERY": 16})
+    t2, s2 = vault_walk(ctx, wd, "c01small-http", shards=4, env={"VERIF_PROBE_EVERY": 16, "VERIF_MODE": "http"})
+    full = vault_cfg(["A", "B", "_internal/X", ""], ["x", "E"], 2, mode="acl", reopen=False)
+    wdf, runf, nsf, nef = vault_graph(ctx, "c01full", full, workers=8)
+    pct = 100 if th else 12
+    t3, s3 = vault_walk(ctx, wdf, "c01full-db", shards=16 if th else 6, env={"VERIF_PROBE_EVERY": 16, "VERIF_SAMPLE_PCT": pct})
+    t4, s4 = vault_walk(ctx, wdf, "c01full-http", shards=16 if th else 6,
+                        env={"VERIF_PROBE_EVERY": 16, "VERIF_SAMPLE_PCT": pct, "VERIF_MODE": "http"})
+    # (2) arbitrary rule sets: random histories validated by TLC (Allow recomputed from the rules in the trace)
+    r1, v1 = vault_random(ctx, "db", 1500 if th else 150, 40, parts=16 if th else 8)
+    r2, v2 = vault_random(ctx, "http", 1500 if th else 150, 40, nofaults=True, parts=16 if th else 8)
+    tot = merge_tot(t1, t2, t3, t4)
+    cov = {"states": ns + nsf, "transitions": tot.get("targets_covered", 0),
+           "traces_validated_against_impl": v1["accepted"] + v2["accepted"],
+           "samples": (s1[:1] + s2[:1] + s3[:1] + (r1.get("samples") or [])[:2]),
+           "model_transitions": ne + nef, "edges_executed_on_real_code": tot.get("edges_executed", 0),
+           "trace_events_validated": v1["events"] + v2["events"], "callers_in_family": 38,
+           "exhaustive": bool(th),
+           "explanation": "TLC enumerated every (caller of the rule-set family: all-access, empty, each single action x pattern rule, split rules, "
+                          "multi-rule) x (operation, arguments) x (existing / absent / reserved / empty name) transition in every reachable state; "
+                          "each was executed through db.DB and through the HTTP handlers, comparing reply class, payload, audit record and the "
+                          "full state before/after. Random histories with arbitrary generated rule sets were validated line by line by TLC, "
+                          "which recomputes Allow with the specification's own matcher."}
+    return "model_checking", cov, ["quick tier samples %d%% of the 4-name graph; the 3-name graph is always complete" % pct,
+                                   "WhoIs is the injected seam carrying the caller's rules"]
+
+
+# ----------------------------------------------------------------------------- C09
+@check("C09")
+def c09(ctx):
+    th = ctx.thorough
+    cfg = vault_cfg(["A", "B"], ["x", "y", "E"] if th else ["x", "E"], 3)
+    wd, run, ns, ne = vault_graph(ctx, "c09", cfg, workers=8 if th else 4)
+    t1, s1 = vault_walk(ctx, wd, "c09-db", shards=16 if th else 4, env={"VERIF_OPS": "getcond", "VERIF_FILECLIENT": 1, "VERIF_PROBE_EVERY": 64})
+    t2, s2 = vault_walk(ctx, wd, "c09-http", shards=16 if th else 4, env={"VERIF_OPS": "getcond,get", "VERIF_MODE": "http", "VERIF_PROBE_EVERY": 64})
+    tot = merge_tot(t1, t2)
+    cov = {"states": ns, "transitions": tot.get("targets_covered", 0), "traces_validated_against_impl": 0,
+           "samples": s1[:2] + s2[:2], "model_transitions": ne, "edges_executed_on_real_code": tot.get("edges_executed", 0),
+           "fileclient_checks": tot.get("fileclient_checks", 0), "exhaustive": True,
+           "explanation": "every conditional-get edge of the bounded Vault graph (every V in 0..MaxVer+1: current, older, newer, deleted, "
+                          "never-existing, 0; in every reachable state incl. activation back to an older version) executed through db.DB, "
+                          "through HTTP handler + setec.Client.GetIfChanged, and against a FileClient built from the state's active versions"}
+    return "model_checking", cov, ["FileClient omits empty-valued secrets by design (property: 'when non-empty')"]
+
+
+# ----------------------------------------------------------------------------- C03
+@check("C03")
+def c03(ctx):
+    th = ctx.thorough
+    cfg = vault_cfg(["A", "B"], ["x", "y", "E"] if th else ["x", "E"], 3)
+    wd, run, ns, ne = vault_graph(ctx, "c03", cfg, workers=8 if th else 4)
+    # restart after every single operation; counters probed after every restart
+    t1, s1 = vault_walk(ctx, wd, "c03", shards=16 if th else 6,
+                        env={"VERIF_REOPEN_EACH": 1, "VERIF_PROBE_EVERY": 1, "VERIF_SAMPLE_PCT": 100 if th else 40})
+    gold = golden_check(ctx)
+    cov = {"states": ns, "transitions": t1.get("targets_covered", 0), "traces_validated_against_impl": gold["validated"],
+           "samples": s1[:2] + gold["samples"], "restarts_after_operation": t1.get("reopens_after_op", 0),
+           "golden_files": gold["files"], "model_transitions": ne, "exhaustive": bool(th),
+           "explanation": "walk of the bounded Vault graph with db.Open on the same file/key after every call: projection incl. next-version "
+                          "counters must equal the model state and the file bytes must be untouched by the open; golden schema-v1 files written "
+                          "by the pinned tree are opened by the current build and the observed state is appended to the history that produced "
+                          "them, which TLC validates against Vault"}
+    return "model_checking", cov, ["golden files were produced by the pinned commit with the committed cleartext test keyset"]
+
+
+# ----------------------------------------------------------------------------- C06
+@check("C06")
+def c06(ctx):
+    th = ctx.thorough
+    faults = ("none", "auditWrite", "auditSync", "save")
+    cfg = vault_cfg(["A", "B"] if th else ["A"], ["x", "E"], 2, mode="few", faults=faults, reopen=True)
+    wd, run, ns, ne = vault_graph(ctx, "c06", cfg, workers=8)
+    t1, s1 = vault_walk(ctx, wd, "c06-db", shards=16 if th else 4, env={"VERIF_PROBE_EVERY": 8})
+    cfg2 = vault_cfg(["A"], ["x", "E"], 2, mode="few", faults=("none", "auditWrite", "auditSync"), reopen=True)
+    wd2, run2, ns2, ne2 = vault_graph(ctx, "c06h", cfg2, workers=8)
+    t2, s2 = vault_walk(ctx, wd2, "c06-http", shards=4, env={"VERIF_PROBE_EVERY": 8, "VERIF_MODE": "http"})
+    r1, v1 = vault_random(ctx, "db", 1200 if th else 120, 50, parts=16 if th else 8)
+    conc = audit_concurrent(ctx)
+    tot = merge_tot(t1, t2)
+    cov = {"states": ns + ns2, "transitions": tot.get("targets_covered", 0),
+           "traces_validated_against_impl": v1["accepted"] + conc["accepted"],
+           "samples": s1[:2] + s2[:1] + conc["samples"][:1], "model_transitions": ne + ne2,
+           "edges_executed_on_real_code": tot.get("edges_executed", 0),
+           "concurrent_audit_histories": conc["histories"], "concurrent_audit_lines": conc["lines"], "exhaustive": True,
+           "explanation": "graph with an audit sink failing at the write or at the sync of any record and a save failing, for authorized and "
+                          "unauthorized callers: per call the records written (principal, action, secret, version, authorized; one complete "
+                          "synced JSON line; database file still untouched when the record is written) must equal the specification's; a failed "
+                          "record means error, no payload, no change, and -- as the code behaves -- every later call failing closed until restart. "
+                          "Concurrent callers append to a real audit.NewFile file; every line must parse and the per-principal record sequence "
+                          "must equal what the TLC-validated history prescribes."}
+    return "model_checking", cov, ["the audit sink is an io.Writer with Sync owned by the harness; the concurrent part uses a real file"]
+
+
+# ----------------------------------------------------------------------------- concurrent histories (C14, C06)
+def validate_conc(ctx, wd, parts, what):
+    """Linearizability search by TLC over recorded concurrent histories (VaultConcTrace).
+    Acceptance = invariant NotDone violated (all lines explained); completion without it = rejection."""
+    buckets = split_traces(os.path.join(wd, "trace.ndjson"), parts)
+    audit_side = [json.loads(x) for x in open(os.path.join(wd, "audit.ndjson")) if x.strip()]
+    stats = {"histories": sum(len(b) for b in buckets), "accepted": 0, "states": 0, "rejected": 0}
+
+    def one(bi):
+        hs = list(buckets[bi])
+        out = {"accepted": 0, "states": 0, "rejected": []}
+        rounds = 0
+        while hs and rounds < 5:
+            rounds += 1
+            # renumber the side audit cursor for this bucket
+            lines, side = [], []
+            for h in hs:
+                fin = json.loads(h[-1])
+                k = fin.get("auditlines", 0) if audit_side else 0
+                hh = list(h)
+                if audit_side:
+                    upto = fin["aupto"]
+                    seg = audit_side[upto - k:upto]
+                    side += seg
+                    fin["aupto"] = len(side)
+                    hh[-1] = json.dumps(fin, separators=(",", ":"))
+                lines += hh
+            files = {"trace.ndjson": ("\n".join(lines) + "\n").encode(),
+                     "audit.ndjson": ("".join(json.dumps(x, separators=(",", ":")) + "\n" for x in side)).encode(),
+                     "dict.ndjson": os.path.join(wd, "dict.ndjson")}
+            run = ctx.tlc("VaultConcTrace", "VaultConcTrace.cfg", files=files, workers=1, deque=True,
+                          name="%s-b%d-r%d" % (what, bi, rounds), timeout=1500, heap="3g")
+            out["states"] += run.distinct
+            errs = " ".join(run.errors)
+            if run.code != 0 and "NotDone" in errs:
+                out["accepted"] += len(hs)
+                break
+            if run.code != 0:
+                if "Invariant" in errs:
+                    lv = run.var_in_error_state("l")
+                    hw = int(lv) if lv and lv.isdigit() else None
+                    why = "an invariant of the specification is violated: " + errs[:200]
+                else:
+                    raise ToolTrouble("TLC failed on VaultConcTrace:\n" + run.tail(40))
+            else:
+                hw = None
+                for ln in open(run.out, errors="replace"):
+                    if ln.startswith('<<"HW", '):
+                        hw = int(ln.split(",")[1].strip(" >\n"))
+                why = "no placement of linearization points explains the recorded replies, audit records and final state"
+            if hw is None or hw < 1 or hw > len(lines):
+                raise ToolTrouble("TLC rejected concurrent histories without a usable position:\n" + run.tail(30))
+            pos, idx = 0, None
+            for i, h in enumerate(hs):
+                if pos + len(h) >= hw:
+                    idx = i
+                    break
+                pos += len(h)
+            out["accepted"] += idx
+            out["rejected"].append({"history": hs[idx], "at": hw - pos, "why": why})
+            hs = hs[idx + 1:]
+        return out
+    for o in pmap(one, range(len(buckets)), par=NCPU):
+        stats["accepted"] += o["accepted"]
+        stats["states"] += o["states"]
+        for rj in o["rejected"]:
+            stats["rejected"] += 1
+            h = [json.loads(x) for x in rj["history"]]
+            ev = h[min(rj["at"], len(h)) - 1]
+            ctx.violation("concurrent history (%s) rejected at %s %s" % (what, ev.get("ev"), ev.get("op", ev.get("cl", ""))),
+                          "TLC finds no linearization of a recorded concurrent history: %s; the search got as far as line %d: %s" % (
+                              rj["why"], rj["at"], json.dumps(ev)[:600]),
+                          {"kind": "conc-history", "history": h})
+    return stats
+
+
+def conc_histories(ctx, mode, n, race=True, auditfile=False, parts=8):
+    env = {"VERIF_TRACES": n, "VERIF_MODE": mode}
+    if auditfile:
+        env["VERIF_AUDITFILE"] = 1
+    name = "conc-%s%s" % (mode, "-file" if auditfile else "")
+    results, wd, code = ctx.godrive("vault", "^TestConcurrentHistories$", env=env, race=race, name=name, allow_fail=True, timeout=1700)
+    out = open(os.path.join(wd, "driver.out"), errors="replace").read()
+    blocks = [b for b in out.split("==================") if "WARNING: DATA RACE" in b]
+    real = [b for b in blocks if "/repo/" in b or "github.com/tailscale/setec/" in b]
+    if blocks and not real:
+        raise ToolTrouble("race inside the harness itself (no verdict):\n" + blocks[0][:2500])
+    if real:
+        out = real[0]
+        i = out.index("WARNING: DATA RACE")
+        ctx.violation("data race (%s)" % name, "the race detector reports a data race in the server/database/audit writer under concurrent "
+                      "requests:\n" + out[i:i + 1800], {"kind": "race", "report": out[i:i + 6000]})
+    elif code != 0 and "vault-conc" not in results:
+        raise ToolTrouble("concurrent driver died:\n" + out[-3000:])
+    r = ctx.take(results, "vault-conc") if "vault-conc" in results else {"counters": {}, "samples": []}
+    st = validate_conc(ctx, wd, parts, name) if "vault-conc" in results else {"histories": 0, "accepted": 0, "states": 0, "rejected": 0}
+    return r, st
+
+
+def audit_concurrent(ctx):
+    th = ctx.thorough
+    r, st = conc_histories(ctx, "db", 400 if th else 60, race=True, auditfile=True, parts=16 if th else 8)
+    return {"accepted": st["accepted"], "histories": st["histories"], "lines": r["counters"].get("calls", 0),
+            "samples": r.get("samples") or []}
+
+
+def golden_check(ctx):
+    results, wd, _ = ctx.godrive("vault", "^TestGolden$", name="golden")
+    r = ctx.take(results, "vault-golden")
+    st = validate_histories(ctx, "VaultTrace", "VaultTrace.cfg", os.path.join(wd, "trace.ndjson"), 6,
+                            extra_files={"dict.ndjson": os.path.join(wd, "dict.ndjson")}, what="golden history + open by current build",
+                            describe=describe_vault_event)
+    if r["counters"].get("files", 0) < 4:
+        raise ToolTrouble("golden files missing")
+    return {"files": r["counters"]["files"], "validated": st["accepted"], "samples": (r.get("samples") or [])[:2]}
+
+
+# ----------------------------------------------------------------------------- C14
+@check("C14")
+def c14(ctx):
+    th = ctx.thorough
+    # T: every interleaving of a few clients at the code's atomicity
+    cfg = open(os.path.join(VERIF, "spec", "cfg", "VaultConcMC.cfg")).read()
+    run = ctx.tlc("VaultConcMC", cfg, workers=NCPU, timeout=2400, heap="10g",
+                  consts={"Vals": '{"x", "E"}' if th else '{"x"}', "CallsEach": 2, "NClients": 2})
+    ctx.tlc_must_pass(run, "VaultConc invariants (TypeOK, AuditBeforeEffect, append-only log) over all interleavings")
+    # B: recorded concurrent histories, linearization points searched by TLC; race detector on
+    r1, s1 = conc_histories(ctx, "db", 2500 if th else 250, race=True, parts=16 if th else 8)
+    r2, s2 = conc_histories(ctx, "http", 1500 if th else 120, race=True, parts=16 if th else 8)
+    cov = {"states": run.distinct + s1["states"] + s2["states"], "transitions": run.generated,
+           "traces_validated_against_impl": s1["accepted"] + s2["accepted"],
+           "samples": (r1.get("samples") or [])[:2] + (r2.get("samples") or [])[:1],
+           "concurrent_calls": r1["counters"].get("calls", 0) + r2["counters"].get("calls", 0),
+           "histories_db": s1["histories"], "histories_http": s2["histories"],
+           "explanation": "2-4 client goroutines x 2-5 calls on two shared names (put/activate/delete/delete-version/get/get-version/"
+                          "conditional get/info/list), GOMAXPROCS varied, filler secrets widening multi-name windows, under the race "
+                          "detector; begin/end/audit events totally ordered by one lock; TLC (VaultConcTrace, depth-first) searches the "
+                          "placement of the unlogged Apply steps that explains all replies, audit records and the final state"}
+    return "model_checking", cov, ["begin is logged before the call starts and end after it returns, so the recorded real-time order is never "
+                                   "stronger than the true one", "race reports are attributed to the code under test only when a setec frame is on the stack"]
